@@ -552,6 +552,7 @@ def check_permuted_rows_not_windowed(ctx, fi,
     sits between two rows whose data happen to be adjacent)."""
     from ..core.defuse import Expander
     from ..core import poly as P
+    from ..core import terms as T
     orders = {p for p in fi.params
               if any(w in p for w in ('order', 'perm', 'shuffle'))}
     if not orders:
@@ -562,9 +563,25 @@ def check_permuted_rows_not_windowed(ctx, fi,
     n = 0
 
     def is_row(t):
-        return isinstance(t, tuple) and t and t[0] == 'sub' \
-            and isinstance(t[1], tuple) and t[1][:1] == ('param',) \
-            and t[1][1] in orders
+        if not (isinstance(t, tuple) and t):
+            return False
+        if t[0] == 'sub' and isinstance(t[1], tuple) \
+                and t[1][:1] == ('param',) and t[1][1] in orders:
+            return True             # order[i]
+        # the loop variable of `for new, old in enumerate(order)` /
+        # `for old in order`
+        it = None
+        if t[0] == 'iterelem':
+            it = t[1]
+        elif t[0] == 'sub' and isinstance(t[1], tuple) and t[1] \
+                and t[1][0] == 'iterelem' and t[2] == ('const', '1'):
+            it = t[1][1]
+            if not (isinstance(it, tuple) and it and it[0] == 'call'
+                    and T.call_name(it) == 'enumerate' and it[2]):
+                return False
+            it = it[2][0]
+        return isinstance(it, tuple) and it[:1] == ('param',) \
+            and it[1] in orders
 
     def atoms(t):
         if is_row(t):
